@@ -35,6 +35,8 @@ Definition erase_kfmt (f : option R.kfmt) : kfmt :=
   | Some R.KUuid => KUuid | Some R.KId62 => KId62
   end.
 
+(* ONLY this definition and [ptype_of] name scha's constructors: when their shapes change,
+   these two matches are what has to follow; the proofs below do not name constructors *)
 Definition erase_fty (t : R.fty) : field :=
   match t with
   | R.TInt k _ _ => FScalar (SInt (erase_ikind k))
@@ -48,8 +50,8 @@ Definition erase_fty (t : R.fty) : field :=
   | R.TDecimal _ _ => FScalar SDecimal
   | R.TTimestamp _ _ => FScalar STimestamp
   | R.TAny _ _ _ => FScalar SAny
-  | R.TObject _ _ => FObjRef any_ref
-  | R.TOneof _ _ => FOneofRef any_ref
+  | R.TObject ref _ _ => FObjRef (mkRef [] ref)        (* a schema of the same package, by name *)
+  | R.TOneof ref _ _ => FOneofRef (mkRef [] ref)
   end.
 
 Definition erase_pty (t : R.pty) : field :=
@@ -68,8 +70,7 @@ Definition ptype_of (k : R.pkind) : ptype :=
   | R.KdInt32 => TInt32 | R.KdInt64 => TInt64 | R.KdUint32 => TUint32 | R.KdUint64 => TUint64
   | R.KdString => TString | R.KdBytes => TBytes | R.KdBool => TBool
   | R.KdFloat => TFloat | R.KdDouble => TDouble | R.KdEnum => TEnum
-  | R.KdMsgObject | R.KdMsgOneof | R.KdTimestamp | R.KdDate | R.KdDecimal | R.KdAny | R.KdMapEntry _ => TMessage
-  | R.KdOther => TBytes
+  | _ => TMessage        (* objects, oneofs, well-known message types, map entries *)
   end.
 
 (* type name and oneof membership are not part of the C12 / C04 view *)
@@ -78,24 +79,17 @@ Definition structure_of (o : R.fout) : dfield :=
           (if R.fo_rep o then LRepeated else LOptional) (R.fo_opt o) [] false.
 
 (* ------------------------------------------------------------------ 1. the contract *)
+Ltac unbind H :=
+  repeat match type of H with
+         | obind _ _ = Ok _ => let x := fresh in let E := fresh in apply obind_ok in H; destruct H as (x & E & H); clear E
+         | (if ?c then _ else _) = Ok _ => destruct c; [try discriminate H|try discriminate H]
+         end.
+
 Lemma write_field_kind env t w :
   W.write_field env t = Ok w -> ptype_of (W.fw_kind w) = item_ptype (erase_fty t).
 Proof.
-  destruct t as [k r l|f r l|r|r l|r l|f e l|f64 rules l|r l|r l|r l|od ts l|fl r|rules l];
-    cbn [W.write_field]; intros H.
-  - apply obind_ok in H. destruct H as (v & _ & H). inversion H. destruct k; reflexivity.
-  - inversion H. reflexivity.
-  - inversion H. reflexivity.
-  - inversion H. reflexivity.
-  - apply obind_ok in H. destruct H as (v & _ & H). inversion H. reflexivity.
-  - apply obind_ok in H. destruct H as (v & _ & H). inversion H. reflexivity.
-  - destruct rules; [discriminate|]. inversion H. destruct f64; reflexivity.
-  - inversion H. reflexivity.
-  - inversion H. reflexivity.
-  - inversion H. reflexivity.
-  - inversion H. reflexivity.
-  - inversion H. reflexivity.
-  - inversion H. reflexivity.
+  destruct t; cbn [W.write_field]; intros H; unbind H; inversion H; subst; cbv;
+    repeat match goal with |- context [match ?x with _ => _ end] => is_var x; destruct x end; reflexivity.
 Qed.
 
 Theorem rules_output_satisfies_structure env idx d o :
@@ -108,11 +102,13 @@ Proof.
   cbn [R.fo_name R.fo_json R.fo_number R.fo_kind R.fo_rep R.fo_opt prop_name prop_field prop_optional
        f_name f_json f_num f_type f_label f_opt3 f_oneof].
   destruct (R.p_ty d) as [t|r sf t|r t]; cbn [erase_pty] in *.
-  - repeat split; try reflexivity.
-    + rewrite (write_field_kind env t w Hw). unfold decl_ptype.
-      destruct t; try destruct f64; reflexivity.
-    + destruct t; try destruct f64; reflexivity.
-    + destruct t; try destruct f64; cbn [erase_fty is_repeated negb]; rewrite andb_true_r; reflexivity.
+  - assert (Hplain : is_repeated (erase_fty t) = false /\ is_map (erase_fty t) = false /\ elem (erase_fty t) = erase_fty t)
+      by (destruct t; repeat split; reflexivity).
+    destruct Hplain as (Hr & Hm & He).
+    repeat split; try reflexivity.
+    + rewrite (write_field_kind env t w Hw). unfold decl_ptype. rewrite Hm, He. reflexivity.
+    + rewrite Hr. reflexivity.
+    + rewrite Hr. cbn [negb]. rewrite andb_true_r. reflexivity.
   - apply obind_ok in Hw. destruct Hw as (w0 & Hw0 & Hw). inversion Hw. subst w. cbn [W.wrap_array W.fw_kind].
     repeat split; try reflexivity.
     + rewrite (write_field_kind env t w0 Hw0). reflexivity.
